@@ -139,6 +139,9 @@ func TestC18Exhaustive(t *testing.T) {
 	for _, k := range []string{"new", "keys", "values", "range"} {
 		for _, a := range lists {
 			one(Case{Init: [][]int{}, Ops: []Op{{K: k, D: 0, A: a}}})
+			if k == "range" { // the same through a single-use sequence
+				one(Case{Init: [][]int{}, Ops: []Op{{K: k, D: 0, A: a, B: 1}}})
+			}
 		}
 	}
 	one(Case{Init: [][]int{}, Ops: []Op{{K: "keys", D: 0, B: 1}}})   // nil map argument
@@ -202,6 +205,9 @@ func genOp(t *rapid.T) Op {
 		op.A = genItems(t, 4)
 		if (op.K == "keys" || op.K == "values") && len(op.A) == 0 {
 			op.B = rapid.IntRange(0, 1).Draw(t, "nilmap")
+		}
+		if op.K == "range" {
+			op.B = rapid.IntRange(0, 1).Draw(t, "singleUse")
 		}
 	case "addall", "removeall", "clone", "keysv", "rangev", "intersects", "issubset", "equals":
 		op.S = []int{genVar(t, "s")}
